@@ -184,7 +184,6 @@ class BcastClientSide(Redis):
         expire: float | None = None,
         exist: bool | None = None,
     ) -> bool:
-        await self._local_cache.set(key, value, expire, exist)
         await self._mark_as_recently_updated(key)
         _set = await super().set(self._add_prefix(key), value, expire, exist)
         if _set:
@@ -289,8 +288,12 @@ class BcastClientSide(Redis):
 
     async def set_lock(self, key: Key, value: Value, expire: float) -> bool:
         await self._mark_as_recently_updated(key)
-        await self._local_cache.set_lock(key, value, expire)
-        return await super().set_lock(self._add_prefix(key), value, expire=expire)
+        _set = await super().set_lock(self._add_prefix(key), value, expire=expire)
+        if _set:
+            await self._local_cache.set(key, value, expire)
+        else:
+            await self._recently_update.delete(key)
+        return _set
 
     async def unlock(self, key: Key, value: Value) -> bool:
         await self._local_cache.unlock(key, value)
